@@ -19,7 +19,7 @@ from harness.core import run_tlc, require_clean, MachineryError
 from harness.graph import Graph, Walker, Adapter
 from harness import systems, tracecheck
 
-T = ['A', 'B']
+T = ['B', 'A']          # the type list is NOT in alphabetical order
 DOMAINS = {1: (256, 0.125), 2: (512, 0.0625)}
 VERS = {
     'rho.A': {1: 0.3, 2: 0.35}, 'rho.B': {1: 0.2, 2: 0.25},
